@@ -8,7 +8,7 @@ PARTIAL = ["tro", "tyo", "syd", "wlg", "mum"]
 FMT = "%Y-%m-%d %H:%M:%S"
 
 
-def const_lits(facts, path):
+def const_lits(facts, path, depth=0):
     """Literal elements of a `&[..]` const item, read from typed HIR."""
     r = facts.fn(path)
     if r is None:
@@ -16,6 +16,8 @@ def const_lits(facts, path):
     e = r["body"]
     while e.get("k") in ("ref", "block") and ("e" in e):
         e = e["e"]
+    if e.get("k") == "path" and e.get("dk", "").startswith("Const") and depth < 4:
+        return const_lits(facts, e["def"], depth + 1)          # `const X: &[..] = other::X;` is the other table
     if e.get("k") != "array":
         return None
     out = []
@@ -108,34 +110,36 @@ def run(ck, facts, tier):
             ck.check(r1, "file=%s:referenced" % m, ("calendars::named::%s::HOLIDAYS" % m) in hol.values(),
                      "HOLIDAYS of %s is not referenced by any calendar name" % rel, rel, sample="referenced")
     g = facts.fn("calendars::named::get_calendar_by_name")
-    ok = False
+    ok, det = False, None
     if g:
-        for e in hir.walk(g["body"]):
-            if e.get("k") == "call" and e["f"].get("def", "").endswith("Cal::new") and len(e["args"]) == 2:
-                def inner(a):
-                    while a.get("k") in ("try", "ref"):
-                        a = a["e"]
-                    if a.get("k") == "call" and len(a["args"]) == 1 and a["args"][0].get("k") == "path":
-                        return a["f"].get("def"), a["args"][0].get("name")
-                    return None, None
-                f0, n0 = inner(e["args"][0])
-                f1, n1 = inner(e["args"][1])
-                pname = g["params"][0].get("name")
-                ok = (f0 == "calendars::named::get_holidays_by_name" and f1 == "calendars::named::get_weekmask_by_name" and n0 == n1 == pname)
+        # evaluated symbolically, so `Cal::new(h(name)?, w(name)?)` and the same with the two look-ups hoisted into lets are one form
+        import cel, paths
+        from cel import Sym, vkey
+        hk = {"calendars::named::get_holidays_by_name": lambda ev, vals, e: Sym("H", vkey(vals[0])), "calendars::named::get_weekmask_by_name": lambda ev, vals, e: Sym("W", vkey(vals[0])),
+              "Cal::new": lambda ev, vals, e: Sym("cal_new", *[vkey(v) for v in vals])}
+        try:
+            nm = Sym("param", "name")
+            got = cel.Ev(facts, hooks=hk).apply_fn(g["fn"], [nm], 0)
+            ps = paths.flatten(cel.strip_early(got)) if hasattr(cel, "strip_early") else paths.flatten(got)
+            det = paths.fmt_paths(got)[:500]
+            oks = [v for c, v in ps if isinstance(v, Sym) and v.tag[:2] == ("ctor", "Ok")]
+            want = Sym("ctor", "Ok", Sym("cal_new", vkey(Sym("H", vkey(nm))), vkey(Sym("W", vkey(nm)))))      # `?` on an opaque result stays the value
+            others_err = all((isinstance(v, Sym) and v.tag[:2] == ("ctor", "Err")) or (isinstance(v, cel.EarlyRet)) or vkey(v) == vkey(want) for c, v in ps)
+            ok = len(oks) == 1 and vkey(oks[0]) == vkey(want) and others_err
+        except cel.Unsupported as e_:
+            det = "rule could not be established (%s)" % e_
     ck.check(r1, "get_calendar_by_name", ok, "get_calendar_by_name is not Cal::new(get_holidays_by_name(name)?, get_weekmask_by_name(name)?)",
-             "rust/calendars/named/mod.rs", sample="Cal::new(holidays(name)?, weekmask(name)?)")
+             "rust/calendars/named/mod.rs", detail=det, sample="Cal::new(holidays(name)?, weekmask(name)?)")
 
     # ---------------- tables
     tables, masks = {}, {}
     r2 = ck.rule("R07.2", "for tgt,nyc,fed,ldn,stk,osl,zur: the set of weekday dates in the HOLIDAYS literals the name resolves to equals the set generated "
                           "by interpreting the declarative Holiday(...) RULES of <name>_script.py over 1970-01-01..2200-12-31; every literal parses under "
                           "the format string; week mask is [5,6]; all/bus have no holidays; fed = nyc minus Good Friday", floor=30)
-    fmt_ok = None
-    hb = facts.fn("calendars::named::get_holidays_by_name")
-    if hb:
-        for e in hir.walk(hb["body"]):
-            if e.get("k") == "lit" and e.get("lk") == "str" and "%Y" in e["v"]:
-                fmt_ok = e["v"]
+    # the format literal may sit in get_holidays_by_name or in a helper it calls (R07.5 decides that it is the one handed to parse_from_str for every literal)
+    fmts = {e["v"] for fn_ in facts.all_fns() if fn_["fn"].startswith("calendars::named::") and fn_["fn"].count("::") == 2 for e in hir.walk(fn_["body"])
+            if e.get("k") == "lit" and e.get("lk") == "str" and "%Y" in e["v"]}
+    fmt_ok = next(iter(fmts)) if len(fmts) == 1 else (sorted(fmts) or None)
     ck.check(r2, "format-string", fmt_ok == FMT, "parse format is %r, expected %r" % (fmt_ok, FMT), sample=fmt_ok)
     for n in sorted(hol):
         lits = const_lits(facts, hol[n])
